@@ -11,7 +11,7 @@ Kinds == {"eq", "lower", "upper", "two", "none"}
 Init == /\ \E nk \in [1..NNL -> Kinds] : \E lk \in [1..NLIN -> Kinds] : \E m \in Methods :
            \E mask \in {"none", "fix2"} : \E opt \in {"None", "empty", "dict"} : \E mi \in {0, 7} :
            \E vb \in {"mixed", "onesided"} : \E narrow \in BOOLEAN :
-             /\ (narrow => nk[1] = "two" /\ vb = "mixed")     \* the first non-linear constraint is a very narrow two-sided band
+             /\ (narrow => NNL >= 1 /\ nk[1] = "two" /\ vb = "mixed")     \* the first non-linear constraint is a very narrow two-sided band
              /\ (vb = "onesided" => opt = "None" /\ mi = 0)
              \* the forwarding of options / max_iterations does not depend on the constraint kinds: varied for one combination
              /\ ((opt # "None" \/ mi # 0) => (\A i \in 1..NNL : nk[i] = "upper") /\ (\A i \in 1..NLIN : lk[i] = "upper"))
